@@ -50,7 +50,12 @@ def gen_measurements(rng, max_points):
         if rng.random() < 0.08:
             x = rng.choice([0.0, 1.0])  # a measured point exactly at a pure-component boundary (composition grid 0 ... 1)
         data.append(Measurement(x=x, t=t, p=law(x, t) * math.exp(rng.gauss(0, noise))))
-    return Measurements(data=data), {"law": desc, "temps": temps, "points": n, "noise": noise}
+    ints = rng.random() < 0.15
+    if ints:
+        # whole-number readings typed in as plain ints (permeances in GPU, temperatures in whole kelvin)
+        k = rng.choice([2.0, 3.0, 10.0]) / max(min(m.p for m in data), 1e-300)
+        data = [Measurement(x=m.x, t=int(round(m.t)), p=max(1, int(round(m.p * k)))) for m in data]
+    return Measurements(data=data), {"law": desc, "temps": temps, "points": n, "noise": noise, "whole_number_readings_as_ints": ints}
 
 
 def sq_error(f, data):
